@@ -55,6 +55,40 @@ def _check_main(run, P):
     run.do(_candidates, run, P)
     run.do(_no_rewrite, run, P)
     run.do(_match, run, P)
+    run.do(_leaf_shortcuts, run, P)
+
+
+def _leaf_shortcuts(run, P):
+    """A leaf handler of the repository's unifier that hands the records back as they
+    came in ("nothing to learn here") does so only for a template name that is no
+    candidate: a candidate that meets its own name still has to be bound to it, or a
+    later occurrence binds it to something else."""
+    from .util import path_conditions
+    U = P.cls("dagrt.expression._ExtendedUnifier")
+    n = 0
+    for name in ("map_variable", "map_constant", "map_foreign"):
+        f = U.methods.get(name)
+        if f is None:
+            continue
+        if len(f.params) < 4:
+            raise AnalysisError(f"{f.qualname}: (self, expr, other, urecs) expected")
+        expr_, urecs_ = f.arg(0), f.arg(2)
+        for r in ast.walk(f.node):
+            if isinstance(r, ast.Return) and isinstance(r.value, ast.Name) and r.value.id == urecs_:
+                conds = path_conditions(f.node, r)
+                known_fixed = any((t == f"{expr_}.name in self.lhs_mapping_candidates" and pol is False)
+                                  or (t == f"{expr_}.name not in self.lhs_mapping_candidates" and pol is True)
+                                  for t, pol in conds)
+                n += 1
+                run.ob("C17.identity", f, r, known_fixed or name != "map_variable",
+                       construct=f"{U.name}.{name}: the records are handed back unchanged only for a "
+                                 f"template name that is no candidate",
+                       why="a candidate matched against its own name stays unbound: the next "
+                           "occurrence binds it to another term and the reported substitution "
+                           "does not turn the template into the target")
+    run.ob("C17.identity", U, None, True,
+           construct=f"{U.name}: {n} leaf shortcut(s) examined",
+           why="scan summary")
 
 
 def _map_call(run, P):
